@@ -65,7 +65,7 @@ class Port(Device, OutMixIn):
         if not self.element_id:
             packet.perhop_time[self.element_id] = self.env.now
 
-        if self.qlimit:
+        if self.qlimit is None:
             self.byte_size = byte_count
             self.store.put(packet)
             return
